@@ -1,5 +1,6 @@
 import PycsepVerif.GeneratedSrc
 import PycsepVerif.Model.NumberTest
+import PycsepVerif.Model.NumberTestPub
 /-!
 # Source tie of C07: the number-test formulas generated from the Python source equal the hand model (Model/NumberTest.lean)
 
@@ -26,5 +27,31 @@ theorem nbd_number_test_ndarray_eq_model (cdf : α → α → α → α) (mean :
 
 theorem nbd_number_test_ndarray_eq_nbdDelta12 [FloorOps α] (mean : α) (n : Nat) (var ε : α) :
     Src.nbd_number_test_ndarray (fun x r p => nbCdf r p x) mean n var ε = nbdDelta12 mean n var ε := rfl
+
+/-! ## the public wrappers `number_test` (poisson_evaluations.py:125) and `negative_binomial_number_test`
+(binomial_evaluations.py:33): backward slice of what they store in the result
+
+The forecast and the catalog are read only through `.event_count` (parameters `fore_cnt`, `obs_cnt` of the generated
+definitions). The generated definitions return `(result.quantile, result.observed_statistic, fore_cnt)`. -/
+
+/-- for an arbitrary `scipy.stats.poisson.cdf`: the quantile is `_number_test_ndarray(fore_cnt, obs_cnt, 1e-6)`, the
+    observed statistic is the catalog's event count -/
+theorem number_test_eq_model (cdf : α → α → α) (foreCnt : α) (obsCnt : Nat) :
+    Src.number_test cdf foreCnt obsCnt = (delta12With (fun x => cdf x foreCnt) obsCnt epsCode, obsCnt, foreCnt) := rfl
+
+/-- with the model's Poisson cdf, a forecast object `f` (`event_count = f.eventCount`) and a catalog of `events`: the
+    model's public N-test -/
+theorem number_test_eq_pub [FloorOps α] {ε : Type} (f : GF α) (events : List ε) :
+    Src.number_test (fun x m => poisCdf m x) f.eventCount events.length
+      = (numberTestPub f events, events.length, f.eventCount) := rfl
+
+theorem negative_binomial_number_test_eq_model (cdf : α → α → α → α) (variance foreCnt : α) (obsCnt : Nat) :
+    Src.negative_binomial_number_test cdf variance foreCnt obsCnt
+      = (delta12With (fun x => cdf x (nbdParams foreCnt variance).1 (nbdParams foreCnt variance).2) obsCnt epsCode,
+         obsCnt, foreCnt) := rfl
+
+theorem negative_binomial_number_test_eq_pub [FloorOps α] {ε : Type} (f : GF α) (events : List ε) (variance : α) :
+    Src.negative_binomial_number_test (fun x r p => nbCdf r p x) variance f.eventCount events.length
+      = (nbdNumberTestPub f events variance, events.length, f.eventCount) := rfl
 
 end Src
